@@ -44,6 +44,14 @@ SIZEOF = {"char": 1, "signed char": 1, "unsigned char": 1, "short": 2, "unsigned
           "float": 4, "double": 8, "_Bool": 1, "bool": 1, "void": 1}
 
 
+for _n, _b, _s in (("uint8_t", 8, False), ("int8_t", 8, True), ("uint16_t", 16, False), ("int16_t", 16, True),
+                   ("uint32_t", 32, False), ("int32_t", 32, True), ("uint64_t", 64, False), ("int64_t", 64, True),
+                   ("size_t", 64, False), ("ssize_t", 64, True), ("ptrdiff_t", 64, True), ("uintptr_t", 64, False),
+                   ("intptr_t", 64, True), ("off_t", 64, True)):
+    INT_TYPES[_n] = (_b, _s)
+    SIZEOF[_n] = _b // 8
+
+
 def _clean(t):
     t = re.sub(r"\b(const|volatile|restrict|__restrict|struct|enum)\b", "", t)
     return " ".join(t.split())
